@@ -554,6 +554,60 @@ def vnet_replay(ctx, rp):
     return (1 if bad else 0), so, se, secs
 
 
+def tsan_layer(ctx):
+    """C11 thorough: the concurrent-senders workload under ThreadSanitizer (std rebuilt with -Zbuild-std so every lock is instrumented).
+    A report counts when one of the two racing accesses is in ipp's own code; races between tokio's reactor and its registrations are
+    synchronised through epoll, which TSan cannot see, and are logged as 'outside ipp'."""
+    import re
+    tdir = os.path.join(ctx["harness"], "target", "tsan")
+    ctx["cargo_build"]("vnet", bins=["vnet_plain"], features=["plain"], toolchain="nightly", target=ASAN_TARGET,
+                       extra_env={"RUSTFLAGS": "-Zsanitizer=thread --cfg ancwrd1_ipp_rs_verif"}, extra_args=["-Zbuild-std", "--target-dir", tdir])
+    binary = os.path.join(tdir, ASAN_TARGET, "release", "vnet_plain")
+    reports, outside, sends, inconcl = [], 0, 0, []
+    for rep_i in range(3):
+        out = os.path.join(ctx["work"], f"C11.tsan.{rep_i}.json")
+        e = ctx["env_base"]()
+        e["TSAN_OPTIONS"] = "halt_on_error=0:exitcode=0:second_deadlock_stack=1"
+        rc, so, se, secs = ctx["run"]([binary, "c11", "--only", "concurrent", "--seed", str(ctx["seed"] + rep_i), "--tier", "quick", "--out", out], timeout=3600, env=e)
+        if rc != 0 or not os.path.exists(out):
+            inconcl.append(f"TSan run {rep_i} ended abnormally (rc={rc}): {se[-300:]}")
+            continue
+        r = json.load(open(out))
+        sends += r["coverage"]["evaluations"]
+        for v in r["violations"]:
+            v["binary"] = "tsan:vnet_plain"
+            reports.append(v)
+        for block in se.split("=================="):
+            if "WARNING: ThreadSanitizer" not in block:
+                continue
+            stacks = [st for st in block.split("\n\n") if re.search(r"^\s+#0 ", st, re.M)][:2]
+            in_ipp = False
+            tops = []
+            for st in stacks:
+                for l in st.splitlines():
+                    m = re.match(r"\s+#\d+ (.*?) (/\S+?):(\d+)", l)
+                    if not m:
+                        continue
+                    path = m.group(2)
+                    if "/rustlib/src/rust/library/" in path or "compiler-rt" in path or "/rustc/" in path:
+                        continue
+                    tops.append(f"{path}:{m.group(3)}")
+                    if path.startswith(ctx["repo"] + "/ipp/") or "/ipp/src/" in path and "registry" not in path:
+                        in_ipp = True
+                    break
+            if in_ipp:
+                kind = re.search(r"ThreadSanitizer: ([^\n(]+)", block).group(1).strip().replace(" ", "-")
+                reports.append({"signature": f"C11:tsan:{kind}:{'|'.join(sorted(set(tops)))}", "detail": "ThreadSanitizer report with a racing access in ipp code:\n" + block[:3000],
+                                "replay": ["c11", "--only", "concurrent"], "binary": "tsan:vnet_plain"})
+            else:
+                outside += 1
+    lr = _layer_result(ctx, "ThreadSanitizer (rustc -Zsanitizer=thread -Zbuild-std, nightly)", 3, sends, reports,
+                       f"concurrent senders through one client, 3 repetitions; {outside} report(s) whose racing accesses are both outside ipp (tokio reactor vs registration, synchronised through epoll which TSan does not model) were logged and not counted")
+    lr["coverage"]["evaluations"] = 0
+    lr["inconclusive"] = inconcl
+    return lr
+
+
 def c11_build(ctx):
     vnet_build(ctx, ["plain"] + (["native", "rtls"] if ctx["tier"] == "thorough" else []))
 
@@ -565,6 +619,7 @@ def c11_steps(ctx):
         qctx = dict(ctx, tier="quick")
         for v in ("native", "rtls"):
             res.append(vnet_run(qctx, v, "c11", tag=f"c11.{v}.thorough-extra"))
+        res.append(tsan_layer(ctx))
     return res
 
 
